@@ -152,6 +152,9 @@ def to_spec(it):
 
 
 def evaluate(item):
+    if isinstance(item, dict) and item.get("kind") == "wide":
+        from mc.props import wide
+        return wide.eval_c02(item)
     spec = to_spec(item)
     obs = common.run_spec(spec)
     if obs.get("error"):
@@ -208,13 +211,15 @@ def sample(item):
 def run(ctx):
     st = Stats()
     explore(ctx, universe(ctx.tier), "mc.props.c02:evaluate", st, payload=payload, sample_of=sample, trait=trait, timeout=120)
+    from mc.props import wide
+    wide.sweep(ctx, st, "C02")
     common.vacuity_guard(ctx, st)
     cov = st.coverage(
         "product universes of sweeper projects: (hour sets x day lists x attachment x zone x resolution x window), project-level/default "
         "hours, ALAP, leave layouts; thorough adds every IANA zone around its 2025 transitions. One evaluation compares every booked slot "
         "of a ~39 day window with RefCalendar. states = distinct ledgers; transitions = bookings; non-trivial = zone, leave or midnight-crossing "
         "hours involved")
-    return ctx.finish(cov, ASSUME)
+    return ctx.finish(cov, ASSUME + [wide.NOTE])
 
 
 def replay(path):
